@@ -11,8 +11,8 @@ use std::panic::{catch_unwind, AssertUnwindSafe};
 
 fn budget(t: Tier) -> u64 {
     match t {
-        Tier::Quick => 384,
-        Tier::Thorough => 1_280,
+        Tier::Quick => 396,
+        Tier::Thorough => 1_584,
     }
 }
 
@@ -138,8 +138,10 @@ impl KmsProvider for Faulty<'_> {
 fn gen(seed: u64, idx: u64, tier: Tier) -> Plan {
     let mut rng = Rng::derive(seed, "c14");
     let mut plan = Plan::new("C14", "c14.envelope_fault_enumeration", seed);
-    plan.params.insert("plaintext_len".into(), 32 + (idx % 33) as i64);
-    plan.params.insert("provider".into(), (idx % 2) as i64);
+    // the three dimensions are taken from independent digits of idx: wrapped-length class idx % 6,
+    // provider (idx / 6) % 2, plaintext length (idx / 12) % 33
+    plan.params.insert("plaintext_len".into(), 32 + ((idx / 12) % 33) as i64);
+    plan.params.insert("provider".into(), ((idx / 6) % 2) as i64);
     let wl = match idx % 6 {
         0 => 16,
         1 => 32,
@@ -148,7 +150,7 @@ fn gen(seed: u64, idx: u64, tier: Tier) -> Plan {
         _ => 16 + rng.below(1009) as i64,
     };
     // the AEAD wrapper cannot produce fewer than 60 bytes
-    plan.params.insert("wrapped_len".into(), if idx % 2 == 1 { wl.max(60) } else { wl });
+    plan.params.insert("wrapped_len".into(), if (idx / 6) % 2 == 1 { wl.max(60) } else { wl });
     plan.params.insert("all_byte_values".into(), (tier == Tier::Thorough) as i64);
     plan.world.horizon_ms = 1;
     plan
